@@ -150,18 +150,29 @@ def main(argv):
         if f.startswith(pid + "-"):
             os.remove(os.path.join(ev_dir, "violations", f))
     lines = []
-    for n, (o, _) in enumerate(new_viol):
+    groups = {}
+    for o, _ in new_viol:
+        groups.setdefault(o.ident(), []).append(o)
+    for n, (ident, os_) in enumerate(sorted(groups.items())):
+        o = os_[0]
         vp = os.path.join(ev_dir, "violations", "%s-%d.json" % (pid, n))
         with open(vp, "w") as fh:
             json.dump({"property": pid, "rule": o.rule, "key": o.key, "fn": o.fn, "site": o.site,
-                       "detail": o.detail, "sample": o.sample, "tier": tier,
+                       "detail": o.detail, "sample": o.sample, "tier": tier, "instances": len(os_),
+                       "other_instances": [x.detail[:300] for x in os_[1:6]],
                        "replay_cmd": "./check %s --tier %s" % (pid, tier)}, fh, indent=1, default=str)
-        lines.append("VIOLATION property=%s replay=%s" % (pid, vp))
-        print("  [%s] %s at %s in %s: %s" % (o.rule, o.key, o.site, o.fn, o.detail))
+        if n < 40:
+            lines.append("VIOLATION property=%s replay=%s" % (pid, vp))
+            print("  [%s] %s at %s in %s: %s%s" % (o.rule, o.key, o.site, o.fn, o.detail[:700],
+                                                  (" (+%d more instances)" % (len(os_) - 1)) if len(os_) > 1 else ""))
     for o, k in known_hit:
         print("KNOWN-FINDING: property=%s %s [%s %s in %s]" % (pid, k.get("what", o.detail), o.rule, o.key, o.fn))
+    seen_inc = set()
     for o in inc:
-        print("INCONCLUSIVE: property=%s [%s] %s at %s in %s: %s" % (pid, o.rule, o.key, o.site, o.fn, o.detail))
+        if o.ident() in seen_inc or len(seen_inc) >= 25:
+            continue
+        seen_inc.add(o.ident())
+        print("INCONCLUSIVE: property=%s [%s] %s at %s in %s: %s" % (pid, o.rule, o.key, o.site, o.fn, o.detail[:500]))
     if fatal:
         print("INCONCLUSIVE: property=%s reason=%s" % (pid, fatal.splitlines()[0]))
         sys.stderr.write(fatal + "\n")
